@@ -173,6 +173,26 @@ class Ctx:
         cov["trusted_base"] = self.trusted_base
         if self.notes:
             cov["notes"] = self.notes
+        # keep the evidence valid against /root/.vp/EVIDENCE.schema.json whatever a check put into the typed keys
+        for k in ("evaluations", "distinct_nontrivial", "states", "transitions", "traces_validated_against_impl",
+                  "obligations", "discharged", "programs", "disagreements_checked"):
+            if k in cov and not (isinstance(cov[k], int) and not isinstance(cov[k], bool) and cov[k] >= 0):
+                cov[k + "_note"] = cov[k]
+                try:
+                    cov[k] = max(0, int(cov[k + "_note"]))
+                except Exception:
+                    del cov[k]
+        for k in ("rule", "checker_cmd", "explanation"):
+            if k in cov and not isinstance(cov[k], str):
+                cov[k] = json.dumps(cov[k], default=str)
+        if "exhaustive" in cov and not isinstance(cov["exhaustive"], bool):
+            if cov["exhaustive"] is not None:
+                cov["exhaustive_part"] = cov["exhaustive"]      # text saying WHICH finite part was enumerated completely
+            del cov["exhaustive"]
+        if "samples" in cov and not isinstance(cov["samples"], list):
+            cov["samples"] = [cov["samples"]]
+        cov["trusted_base"] = [t if isinstance(t, str) else json.dumps(t, default=str) for t in cov["trusted_base"]]
+        self.assumptions = [a if isinstance(a, str) else json.dumps(a, default=str) for a in self.assumptions]
         ev = {"property_id": self.pid, "tier": self.tier, "seed": self.seed, "level": level,
               "coverage": cov, "assumptions": self.assumptions,
               "wall_s": round(time.time() - self.t0, 2), "violations": len(self.violations),
